@@ -13,6 +13,9 @@ pub(crate) struct MtuDiscovery {
     state: Option<EnabledMtuDiscovery>,
     /// The state of the black hole detector
     black_hole_detector: BlackHoleDetector,
+    /// The peer's `max_udp_payload_size`, remembered so that [`Self::reset`] respects it even when
+    /// MTU discovery is disabled
+    peer_max_udp_payload_size: u16,
 }
 
 impl MtuDiscovery {
@@ -53,6 +56,7 @@ impl MtuDiscovery {
             current_mtu,
             state,
             black_hole_detector: BlackHoleDetector::new(min_mtu),
+            peer_max_udp_payload_size: MAX_UDP_PAYLOAD,
         }
     }
 
@@ -61,6 +65,8 @@ impl MtuDiscovery {
         if let Some(state) = self.state.take() {
             self.state = Some(EnabledMtuDiscovery::new(state.config));
             self.on_peer_max_udp_payload_size_received(state.peer_max_udp_payload_size);
+        } else {
+            self.current_mtu = self.current_mtu.min(self.peer_max_udp_payload_size);
         }
         self.black_hole_detector = BlackHoleDetector::new(min_mtu);
     }
@@ -81,6 +87,7 @@ impl MtuDiscovery {
     /// been received
     pub(crate) fn on_peer_max_udp_payload_size_received(&mut self, peer_max_udp_payload_size: u16) {
         self.current_mtu = self.current_mtu.min(peer_max_udp_payload_size);
+        self.peer_max_udp_payload_size = peer_max_udp_payload_size;
 
         if let Some(state) = self.state.as_mut() {
             // It is possible for black hole detection to trigger before the connection has been
